@@ -1,1 +1,2 @@
+pub mod c03;
 pub mod c05;
